@@ -1,7 +1,7 @@
 (** C05 — the ordered map is a correct ordered dictionary under every
     operation sequence.  Only statements; every proof is [exact lemma]. *)
 From Coq Require Import String List Arith Bool.
-From GP Require Import Model.OMap Proofs.OMapProofs.
+From GP Require Import Model.OMap Proofs.OMapProofs Proofs.OMapFromItems.
 Import ListNotations.
 
 Section C05.
@@ -23,6 +23,14 @@ Section C05.
   Theorem step_refines : forall m o, Inv V m ->
       Inv V (step m o) /\ abs (step m o) = spec_step (abs m) o.
   Proof. intros m o H; split; [exact (OMapProofs.inv_step V m o H) | exact (OMapProofs.abs_step V m o H)]. Qed.
+
+  (** the constructor from a pair list (MapFromItems) is such a history: it satisfies the invariant and its
+      abstraction is the list model built from the same pairs (a repeated key is one entry: first position,
+      last value - Proofs/OMapFromItems.v from_items_repeated_key) *)
+  Theorem from_items_inv : forall l, Inv V (from_items V l).
+  Proof. exact (OMapFromItems.from_items_inv V). Qed.
+  Theorem from_items_refines : forall l, abs (from_items V l) = spec_from_items V l.
+  Proof. exact (OMapFromItems.from_items_refines V). Qed.
 
   (** the list model is a dictionary: keys stay distinct *)
   Theorem keys_distinct : forall m, Inv V m -> NoDup (map fst (abs m)).
@@ -67,6 +75,8 @@ Example c05_nonvacuous :
 Proof. vm_compute. reflexivity. Qed.
 
 Print Assumptions inv_reachable.
+Print Assumptions from_items_inv.
+Print Assumptions from_items_refines.
 Print Assumptions abs_refines.
 Print Assumptions step_refines.
 Print Assumptions keys_distinct.
